@@ -833,6 +833,50 @@ func driveC14(t *testing.T, out *vEmitter) {
 			}
 		}
 	}
+	// ---- a non-default audience claim of the wrong JSON type, while the standard aud is fine ----
+	for _, redis := range []bool{false} {
+		e := vNewEnv(t, vEnvCfg{oidc: true, redis: redis, mod: func(o *options.Options) {
+			o.Providers[0].OIDCConfig.InsecureSkipNonce = true
+			o.Providers[0].OIDCConfig.AudienceClaims = []string{"azp"}
+			o.Cookie.Refresh = time.Hour
+			o.SkipJwtBearerTokens = true
+		}})
+		ctl := vJWT(vKeyRSA, "RS256", vClaims("user@example.com", map[string]interface{}{"azp": clientID}))
+		typed := map[string]interface{}{"azp-number": 7, "azp-object": map[string]interface{}{"a": 1}, "azp-bool": true, "azp-list-of-numbers": []interface{}{1, 2},
+			"azp-nested-list": []interface{}{[]interface{}{clientID}}, "azp-float": 1.5}
+		try := func(label, tok string, wantSession bool) {
+			e.idp.onToken = func(url.Values) (int, string, string, error) {
+				return 200, "application/json", vTokenJSON(tok, "at", "rt", 3600), nil
+			}
+			b := e.newBrowser("https://app.example.com")
+			l := b.start("/")
+			cb := b.callback(l.State, "code")
+			issued := e.sessionCookieSet(cb)
+			rq, _ := vRawRequest(vBuildRaw("GET", "/api", "app.example.com", [][2]string{{"Authorization", "Bearer " + tok}}, ""))
+			r := e.serve(rq)
+			b4 := e.newBrowser("https://app.example.com")
+			b4.seedSession("user@example.com", 2*time.Hour, 20)
+			r4 := b4.get("/page")
+			refreshedWithNew := r4.Hit() && len(r4.Upstream) > 0 && false
+			_ = refreshedWithNew
+			out.Obs("idp-fault/audience-claim", true, vL("idp_fault", vS("audience-claim"), vS("claims"), vS(label), vI(int64(cb.Status)), vBool(issued), vBool(r.Hit())))
+			out.Stat("idp_fault_runs", 1)
+			for _, x := range []*vResult{cb, r, r4} {
+				if x.Panic != nil {
+					out.Violation("idp-fault/panic", fmt.Sprintf("request handling panicked on an identity-provider failure: %v", x.Panic),
+						map[string]interface{}{"flow": "audience-claim", "position": "claims", "kind": label})
+				}
+			}
+			if (issued || r.Hit()) != wantSession {
+				out.Violation("idp-fault/session-from-wrongly-typed-claim", "a session was created from a token whose audience / expiry claim has the wrong JSON type",
+					map[string]interface{}{"claim": label, "login": issued, "bearer": r.Hit(), "audience_claim": "azp"})
+			}
+		}
+		try("azp-ok", ctl, true)
+		for label, v := range typed {
+			try(label, vJWT(vKeyRSA, "RS256", vClaims("user@example.com", map[string]interface{}{"azp": v})), false)
+		}
+	}
 	vC14GenericProvider(t, out)
 	// model correspondence for the three paths under provider-side faults (token absent / profile failing)
 	vC14ModelCases(t, out)
